@@ -24,7 +24,9 @@
     C16_tversky_weight_binary_accepted
     C16_tversky_encoding_pred1_target2 C16_tversky_encoding_pred2_target1 C16_tversky_encoding_pred1_labels
     C16_tversky_encoding_pred2_labels C16_tversky_encoding_identical C16_tversky_labels_out_of_range
-    C16_ncc_mask_refuted C16_ncc_mask_always_rejected C16_mi_mask_refuted
+    C16_ncc_masked_identical C16_ncc_masked_range C16_ncc_masked_symmetric C16_ncc_masked_affine_invariant
+    C16_ncc_masked_affine_invariant_eps0 C16_ncc_mask_ignored C16_ncc_mask_ones C16_ncc_mask_accepted
+    C16_mi_mask_ignored C16_mi_mask_selected C16_mi_mask_selected_loss
 -/
 import Deepali.Proofs.LossesWrappers
 import Deepali.Proofs.LossesOverlap
@@ -320,42 +322,130 @@ variable {K : Type} [Field K]
 
 /-! ## mutual information -/
 
-/-- MI / NMI (Parzen estimate as coded) is symmetric in the two images for an arbitrary window
-    response `win`, an arbitrary function `lg` in place of `log`, any bins, batch and sample count. -/
+/-- MI / NMI (Parzen estimate as coded, with or without a mask weighting the joint histogram) is
+    symmetric in the two images for an arbitrary window response `win`, an arbitrary function `lg` in
+    place of `log`, any bins, batch and sample count. -/
 theorem C16_mi_symmetric (win : K → K → K) (lg : K → K) (tiny : K) (normalized : Bool) (N B S : Nat)
-    (cen x y : Nat → K) :
-    miLossCore win lg tiny normalized N B S cen x y = miLossCore win lg tiny normalized N B S cen y x :=
-  miLossCore_symm win lg tiny normalized N B S cen x y
+    (cen x y : Nat → K) (m : Option (Nat → K)) :
+    miLossCore win lg tiny normalized N B S cen x y m = miLossCore win lg tiny normalized N B S cen y x m :=
+  miLossCore_symm win lg tiny normalized N B S cen x y m
 
-/-- … also through the wrapper (shape checks, flattening, mask multiplication). -/
+/-- … also through the wrapper (shape checks, flattening, mask broadcasting). -/
 theorem C16_mi_symmetric_wrapper (win : K → K → K) (lg : K → K) (tiny : K) (nz : Bool) (x y : T K)
     (mask : Option (T K)) (B : Nat) (cen : Nat → K) (h : x.shape = y.shape) :
     miLoss win lg tiny nz x y mask B cen = miLoss win lg tiny nz y x mask B cen :=
   miLoss_symm win lg tiny nz x y mask B cen h
 
-/-! ## where the code as it stands violates the property -/
-
-/-- "accepts every documented mask shape" for `ncc_loss` (`mask`: same shape as `source`). -/
-def C16_ncc_mask_Statement : Prop :=
-  ∀ (red : Reduction) (x y m : T ℚ) (eps : ℚ), x.shape = y.shape → m.shape = x.shape → 3 ≤ x.shape.length →
-    ∃ v, nccLoss red x y (some m) eps = .ok v
-
-/-- F-16b: refuted — and not by one unlucky input: -/
-theorem C16_ncc_mask_refuted : ¬ C16_ncc_mask_Statement := by
-  intro h
-  obtain ⟨v, hv⟩ := h .mean ⟨[1, 1, 2, 2], fun _ => 1⟩ ⟨[1, 1, 2, 2], fun _ => 1⟩ ⟨[1, 1, 2, 2], fun _ => 1⟩ 0
-    rfl rfl (by decide)
-  obtain ⟨e, he⟩ := nccLoss_mask_error .mean (⟨[1, 1, 2, 2], fun _ => 1⟩ : T ℚ) ⟨[1, 1, 2, 2], fun _ => 1⟩
-    ⟨[1, 1, 2, 2], fun _ => 1⟩ 0 (by decide)
-  rw [he] at hv; cases hv
-
-/-- `ncc_loss(mask=…)` returns an error for *every* mask with a spatial dimension (the per-item
-    loss of shape `(N,)` is what `masked_loss` compares the mask with). -/
-theorem C16_ncc_mask_always_rejected (red : Reduction) (x y m : T K) (eps : K) (hm : 3 ≤ m.shape.length) :
-    ∃ e, nccLoss red x y (some m) eps = .error e :=
-  nccLoss_mask_error red x y m eps hm
+/-- masked MI (repair PENDING-F16BD): samples where the mask is 0 do not influence the value —
+    changing both images there changes nothing (any `win`, `lg`, bins, batch). -/
+theorem C16_mi_mask_ignored (win : K → K → K) (lg : K → K) (tiny : K) (normalized : Bool) (N B S : Nat)
+    (cen x y x' y' m : Nat → K) (h : ∀ i, i < N * S → m i ≠ 0 → x i = x' i ∧ y i = y' i) :
+    miLossCore win lg tiny normalized N B S cen x y (some m)
+      = miLossCore win lg tiny normalized N B S cen x' y' (some m) := by
+  have he : ∀ n, n < N →
+      miEntropies win lg tiny B S cen (fun s => x (n * S + s)) (fun s => y (n * S + s)) (some fun s => m (n * S + s))
+        = miEntropies win lg tiny B S cen (fun s => x' (n * S + s)) (fun s => y' (n * S + s))
+            (some fun s => m (n * S + s)) := by
+    intro n hn
+    unfold miEntropies
+    rw [miProbs_mask_ignored win tiny B S cen _ _ (fun s => x' (n * S + s)) (fun s => y' (n * S + s)) _
+      (fun s hs hm => h _ (idx_lt n N S s hn hs) hm)]
+  unfold miLossCore
+  simp only [Option.map]
+  cases normalized
+  · simp only [Bool.false_eq_true, if_false]
+    rw [sumTo_congr (fun n hn => by rw [he n hn])]
+  · simp only [if_true]
+    rw [sumTo_congr (fun n hn => by rw [he n hn])]
 
 end Field
+
+section MaskedOrdered
+variable {K : Type} [Field K] [LinearOrder K] [IsStrictOrderedRing K]
+
+/-- masked MI with a 0/1 mask averages over the masked region only: joint/marginal distributions
+    and hence the three entropies of one image pair are exactly those of the kept samples alone
+    (`kept S m` = the indices with `m = 1`, in order) — for any `win`, `lg`, bins. -/
+theorem C16_mi_mask_selected (win : K → K → K) (lg : K → K) (tiny : K) (B S : Nat) (cen x y m : Nat → K)
+    (hm : ∀ s, s < S → m s = 0 ∨ m s = 1) :
+    miEntropies win lg tiny B S cen x y (some m)
+      = miEntropies win lg tiny B (kept S m).length cen (fun j => x ((kept S m).getD j 0))
+          (fun j => y ((kept S m).getD j 0)) none := by
+  unfold miEntropies
+  rw [miProbs_mask_selected win tiny B S cen x y m hm]
+
+/-- … so the loss of one image pair with a 0/1 mask is the loss of its kept samples. -/
+theorem C16_mi_mask_selected_loss (win : K → K → K) (lg : K → K) (tiny : K) (normalized : Bool) (B S : Nat)
+    (cen x y m : Nat → K) (hm : ∀ s, s < S → m s = 0 ∨ m s = 1) :
+    miLossCore win lg tiny normalized 1 B S cen x y (some m)
+      = miLossCore win lg tiny normalized 1 B (kept S m).length cen (fun j => x ((kept S m).getD j 0))
+          (fun j => y ((kept S m).getD j 0)) none := by
+  have h0 := C16_mi_mask_selected win lg tiny B S cen x y m hm
+  unfold miLossCore
+  simp only [Option.map, sumTo, Nat.zero_mul, Nat.zero_add, h0]
+
+/-! ## NCC with a mask (repair PENDING-F16BD): weighted means, centred images times mask -/
+
+/-- identical images: `ε / (b² + ε)` with `b = Σ ((s − mean_m s)·m)²`, i.e. exactly 0 for `ε = 0`. -/
+theorem C16_ncc_masked_identical (n : Nat) (s m : Nat → K) (eps : K)
+    (h : winSum (List.range n) (fun j => centerM n s m j * centerM n s m j)
+          * winSum (List.range n) (fun j => centerM n s m j * centerM n s m j) + eps ≠ 0) :
+    nccItemM n s s m eps
+      = eps / (winSum (List.range n) (fun j => centerM n s m j * centerM n s m j)
+          * winSum (List.range n) (fun j => centerM n s m j * centerM n s m j) + eps) := by
+  rw [nccItemM_eq]; exact lccScore_self _ _ eps h
+
+theorem C16_ncc_masked_range (n : Nat) (s t m : Nat → K) {eps : K} (he : 0 ≤ eps) :
+    0 ≤ nccItemM n s t m eps ∧ nccItemM n s t m eps ≤ 1 := by
+  rw [nccItemM_eq]; exact lccScore_range _ _ _ he
+
+theorem C16_ncc_masked_symmetric (n : Nat) (s t m : Nat → K) (eps : K) :
+    nccItemM n s t m eps = nccItemM n t s m eps := by
+  rw [nccItemM_eq, nccItemM_eq, lccScore_symm]
+
+/-- intensity scale and offset of either image (mask with `Σ m ≠ 0`): same value with `ε / (a·c)²`. -/
+theorem C16_ncc_masked_affine_invariant (n : Nat) (s t m : Nat → K) (eps a b c d : K) (ha : a ≠ 0) (hc : c ≠ 0)
+    (hm : sumTo n m ≠ 0) :
+    nccItemM n (fun i => a * s i + b) (fun i => c * t i + d) m eps = nccItemM n s t m (eps / (a * a) / (c * c)) := by
+  simp only [nccItemM_eq]
+  rw [lccScore_scale_left _ (centerM n s m) _ _ eps a ha (fun j _ => centerM_affine n s m a b hm j),
+      lccScore_scale_right _ _ (centerM n t m) _ _ c hc (fun j _ => centerM_affine n t m c d hm j)]
+
+theorem C16_ncc_masked_affine_invariant_eps0 (n : Nat) (s t m : Nat → K) (a b c d : K) (ha : a ≠ 0) (hc : c ≠ 0)
+    (hm : sumTo n m ≠ 0) :
+    nccItemM n (fun i => a * s i + b) (fun i => c * t i + d) m 0 = nccItemM n s t m 0 := by
+  rw [C16_ncc_masked_affine_invariant n s t m 0 a b c d ha hc hm]; simp
+
+/-- samples where the mask is 0 do not influence the result: changing both images there changes nothing. -/
+theorem C16_ncc_mask_ignored (n : Nat) (s t s' t' m : Nat → K) (eps : K)
+    (h : ∀ i, i < n → m i ≠ 0 → s i = s' i ∧ t i = t' i) :
+    nccItemM n s t m eps = nccItemM n s' t' m eps := by
+  rw [nccItemM_eq, nccItemM_eq]
+  exact lccScore_congr _ _ _ _ _ eps
+    (fun j hj => centerM_congr n s s' m (fun i hi hm => (h i hi hm).1) j (List.mem_range.mp hj))
+    (fun j hj => centerM_congr n t t' m (fun i hi hm => (h i hi hm).2) j (List.mem_range.mp hj))
+
+/-- an all-ones mask gives the unmasked loss. -/
+theorem C16_ncc_mask_ones (n : Nat) (s t m : Nat → K) (eps : K) (h : ∀ i, i < n → m i = 1) :
+    nccItemM n s t m eps = nccItem n s t eps := by
+  rw [nccItemM_eq, nccItem_eq]
+  exact lccScore_congr _ _ _ _ _ eps
+    (fun j hj => centerM_ones n s m h j (List.mem_range.mp hj))
+    (fun j hj => centerM_ones n t m h j (List.mem_range.mp hj))
+
+/-- every documented mask shape is accepted: for images `(N, C, …X)` and a mask `(1|N, 1|C, …X)`
+    `ncc_loss` returns the weighted item scores on the broadcast mask (any reduction). -/
+theorem C16_ncc_mask_accepted (red : Reduction) (N C : Nat) (sp : List Nat) (n0 c0 : Nat) (x y m : T K) (eps : K)
+    (hx : x.shape = N :: C :: sp) (hy : y.shape = N :: C :: sp) (hms : m.shape = n0 :: c0 :: sp)
+    (hn : n0 = 1 ∨ n0 = N) (hc : c0 = 1 ∨ c0 = C) :
+    nccLoss red x y (some m) eps
+      = .ok (reduceLoss red N (nccNoneM (C * prod sp) x.data y.data (expandAs x.shape m) eps) none) := by
+  unfold nccLoss
+  rw [nccPrep_mask x y m eps (by rw [hx, hy]) (by rw [hx, hms]; exact maskedLossCheck_documented N C sp n0 c0 hn hc)
+    (by rw [hx, hms]; simp)]
+  simp only [hx, one_mul, finish, Except.map, List.headD_cons, List.drop_succ_cons, List.drop_zero, prod]
+
+end MaskedOrdered
 
 section Floor
 variable {K : Type} [Field K] [LinearOrder K] [IsStrictOrderedRing K] [FloorRing K]
@@ -451,6 +541,28 @@ theorem C16_tversky_loss_half_is_dice_loss (S : Nat) (p y : Nat → K) (w : Opti
 
 end Ordered2
 
+/-- concrete instances: masked NCC through the wrapper (mask `(1, 1, 2, 2)` broadcast over two
+    channels; the masked-out sample differs between the two calls), and masked MI with a histogram
+    window equal to MI of the kept sample. -/
+example :
+    nccLoss .none ⟨[1, 2, 2, 2], fun i => [1, 2, 4, 9, 0, 5, 2, 7].getD i (0 : ℚ)⟩
+        ⟨[1, 2, 2, 2], fun i => [0, 5, 2, 3, 1, 1, 4, 8].getD i 0⟩
+        (some ⟨[1, 1, 2, 2], fun i => [1, 1, 1, 0].getD i 0⟩) 0
+      = nccLoss .none ⟨[1, 2, 2, 2], fun i => [1, 2, 4, -3, 0, 5, 2, 11].getD i (0 : ℚ)⟩
+        ⟨[1, 2, 2, 2], fun i => [0, 5, 2, 6, 1, 1, 4, -2].getD i 0⟩
+        (some ⟨[1, 1, 2, 2], fun i => [1, 1, 1, 0].getD i 0⟩) 0 ∧
+    nccLoss .none ⟨[1, 2, 2, 2], fun i => [1, 2, 4, 9, 0, 5, 2, 7].getD i (0 : ℚ)⟩
+        ⟨[1, 2, 2, 2], fun i => [0, 5, 2, 3, 1, 1, 4, 8].getD i 0⟩
+        (some ⟨[1, 1, 2, 2], fun i => [1, 1, 1, 0].getD i 0⟩) 0 = .ok [1467 / 1469] := by
+  constructor <;> decide +kernel
+
+example :
+    miLoss (fun x c => if x = c then 1 else 0) id 0 false ⟨[1, 1, 2], fun i => [1, 1].getD i (0 : ℚ)⟩
+        ⟨[1, 1, 2], fun i => [1, 1].getD i 0⟩ (some ⟨[1, 1, 2], fun i => [1, 0].getD i 0⟩) 2 (fun b => (b : ℚ))
+      = miLoss (fun x c => if x = c then 1 else 0) id 0 false ⟨[1, 1, 1], fun _ => (1 : ℚ)⟩ ⟨[1, 1, 1], fun _ => 1⟩
+        none 2 (fun b => (b : ℚ)) := by
+  decide +kernel
+
 /-- concrete instances: focal Tversky loss with `gamma = 2` through the wrapper, and a weighted
     binary prediction (both documented weight shapes). -/
 example : tverskyLoss (npow 2) .none ⟨[1, 1, 2, 2], fun i => [1, 0, 1, 1].getD i (0 : ℚ)⟩
@@ -459,24 +571,6 @@ example : tverskyLoss (npow 2) .none ⟨[1, 1, 2, 2], fun i => [1, 0, 1, 1].getD
       ⟨[1, 1, 2, 2], fun i => [1, 1, 0, 1].getD i 0⟩ (some ⟨[1, 2, 2], fun i => [1, 1, 0, 0].getD i 0⟩)
       (1 / 2) (1 / 2) 0 false = .ok [2 / 3] := by
   decide +kernel
-
-/-- "averages only over the masked region" for `mi_loss`: the masked loss equals the loss of the
-    masked samples alone (here: one item, two samples, the second masked out). -/
-def C16_mi_mask_Statement : Prop :=
-  ∀ (win : ℚ → ℚ → ℚ) (lg : ℚ → ℚ) (x0 x1 y0 y1 : ℚ) (cen : Nat → ℚ),
-    miLoss win lg 0 false ⟨[1, 1, 2], fun i => [x0, x1].getD i 0⟩ ⟨[1, 1, 2], fun i => [y0, y1].getD i 0⟩
-        (some ⟨[1, 1, 2], fun i => [1, 0].getD i 0⟩) 2 cen
-      = miLoss win lg 0 false ⟨[1, 1, 1], fun _ => x0⟩ ⟨[1, 1, 1], fun _ => y0⟩ none 2 cen
-
-/-- refuted: with a histogram window (`win x c = 1` iff `x = c`), bin centres 0 and 1 and `lg = id`
-    the masked-out sample is counted in bin 0 (value ½ instead of 1). -/
-theorem C16_mi_mask_refuted : ¬ C16_mi_mask_Statement := by
-  intro h
-  have := h (fun x c => if x = c then 1 else 0) id 1 1 1 1 (fun b => (b : ℚ))
-  revert this
-  norm_num [miLoss, miPrep, miLossCore, miEntropies, miProbs, sumTo, expandAs, bcastIdx, prod, getM, memoArr,
-    bind, Except.bind, pure, Except.pure]
-
 
 section Encodings
 variable {K : Type} [Field K] [LinearOrder K] [IsStrictOrderedRing K] [FloorRing K]
